@@ -1,14 +1,15 @@
 import RedoModel.Lemmas.LogFollowObs3
+import RedoModel.Lemmas.LogFollowObs4
 /-!
 # C18 (live half, continued) — the trace acceptor `Obs` is tied to the model and to the completeness theorem
 
 Property theorems only; model and acceptor: `RedoModel/LogFollow.lean` (`Sys`, `step`, `run`; `Obs.ostep`, `Obs.orun`);
-proofs: `Lemmas/LogFollowObs0..3.lean`.
+proofs: `Lemmas/LogFollowObs0..4.lean`.
 
 * `obsOf s es` — what the hooks log of the run `es` from `s`: `lock`, `create i` (`i` = index of the new instance,
   used as its inode), `unlock`; the follower's first step → `enter b`; the `top` step that opens → `opened g`;
-  the `check` step → `check b`; the `read` step that ends the loop → `stop`; appends, reads of lines, `top` with a
-  descriptor or without a file, end of file while believed locked → nothing.
+  the `check` step → `check b`; a `read` step at the end of the file → `eof`, followed by `stop` if the loop ends
+  there; appends, reads of lines, `top` with a descriptor or without a file → nothing.
 * `StartOk insts ph o0` — the acceptor starts in the phase `ph`, with no follower session, and (only when
   `ph = .building`) knows the current instance.  `obsStart insts ph` is such a state; so is the wire driver's `{}`
   for `ph = .idle`.
@@ -83,7 +84,7 @@ the target is built again.  The acceptor accepts (the session is over), the run 
 the run the log at the name (`[2]`) is not what was shown — which is why `accepted_trace_complete` speaks about the
 moment of the return. -/
 theorem obs_corner_build_after_return :
-    obsOf (enter [[1]] .idle) afterStopRun = [.enter false, .opened 0, .stop, .lock, .create 1, .unlock] ∧
+    obsOf (enter [[1]] .idle) afterStopRun = [.enter false, .opened 0, .eof, .stop, .lock, .create 1, .unlock] ∧
     verdict {} (obsOf (enter [[1]] .idle) afterStopRun) = none ∧
     outcome (enter [[1]] .idle) afterStopRun = some (.stopped, [1], [2]) ∧
     ¬ SafeRun (enter [[1]] .idle) afterStopRun :=
@@ -102,13 +103,14 @@ theorem obs_final_state (insts : List (List Nat)) (ph : Phase) (o0 : OSt) (h0 : 
 /-! ## 3. The consistency flags cannot be raised on the model's own traces -/
 
 /-- Whatever the run, a flag raised on its projection is one of the three creation flags; `badOrder`, `unsoundFree`,
-`stopWhileLocked`, `wrongInstance` are impossible (on real traces they check that the code's observations are
+`stopWhileLocked`, `wrongInstance`, `stopWithoutReread` are impossible (on real traces they check that the code's observations are
 consistent with the model). -/
 theorem obs_consistency_flags_unreachable (insts : List (List Nat)) (ph : Phase) (o0 : OSt)
     (h0 : StartOk insts ph o0) (es : List Ev) (i : Nat) (fl : Flag) (j : Nat)
     (h : orun o0 (obsOf (enter insts ph) es) i = .error (fl, j)) :
     (fl = .staleOpen ∨ fl = .rebuiltDuringFollow ∨ fl = .createAfterFree) ∧
-    fl ≠ .badOrder ∧ fl ≠ .unsoundFree ∧ fl ≠ .stopWhileLocked ∧ fl ≠ .wrongInstance :=
+    fl ≠ .badOrder ∧ fl ≠ .unsoundFree ∧ fl ≠ .stopWhileLocked ∧ fl ≠ .wrongInstance ∧
+    fl ≠ .stopWithoutReread :=
   obs_flags_core insts ph o0 (Rel_of_StartOk h0) es i fl j h
 
 /-- The condition on the start state is needed: started in the phase `building` without the current instance, the
@@ -122,19 +124,19 @@ theorem obs_start_state_matters :
 /-- The reproduced defect is flagged `staleOpen`, at the `create`. -/
 theorem obs_flags_stale_open :
     obsOf (enter [[1]] .lockedNoLog) staleRun =
-      [.enter true, .opened 0, .create 1, .unlock, .check false, .stop] ∧
+      [.enter true, .opened 0, .create 1, .unlock, .eof, .check false, .eof, .stop] ∧
     verdict (obsStart [[1]] .lockedNoLog) (obsOf (enter [[1]] .lockedNoLog) staleRun) = some (.staleOpen, 2) :=
   stale_projection
 
 /-- A rebuild under an open descriptor is flagged `rebuiltDuringFollow`. -/
 theorem obs_flags_rebuild :
-    obsOf (enter [[1]] .idle) rebuildRun = [.enter false, .opened 0, .lock, .create 1, .unlock, .stop] ∧
+    obsOf (enter [[1]] .idle) rebuildRun = [.enter false, .opened 0, .lock, .create 1, .unlock, .eof, .stop] ∧
     verdict {} (obsOf (enter [[1]] .idle) rebuildRun) = some (.rebuiltDuringFollow, 3) :=
   rebuild_projection
 
 /-- A build that starts after the follower saw "no file, not locked" is flagged `createAfterFree`. -/
 theorem obs_flags_create_after_free :
-    obsOf (enter [] .idle) lateBuildRun = [.enter false, .lock, .create 0, .unlock, .stop] ∧
+    obsOf (enter [] .idle) lateBuildRun = [.enter false, .lock, .create 0, .unlock, .eof, .stop] ∧
     verdict {} (obsOf (enter [] .idle) lateBuildRun) = some (.createAfterFree, 2) :=
   lateBuild_projection
 
@@ -167,10 +169,28 @@ theorem obs_swapped_open_create_hole (o : OSt) (f : FolSt) (i k : Nat) (hph : o.
 theorem obs_swapped_hole_example :
     outcome (enter [] .idle) [.fol, .lock, .create, .fol, .fol, .append 1, .unlock] = some (.stopped, [], [1]) ∧
     obsOf (enter [] .idle) [.fol, .lock, .create, .fol, .fol, .append 1, .unlock] =
-      [.enter false, .lock, .create 0, .opened 0, .stop, .unlock] ∧
-    verdict {} [.enter false, .lock, .create 0, .opened 0, .stop, .unlock] = some (.createAfterFree, 2) ∧
-    verdict {} [.enter false, .lock, .opened 0, .create 0, .stop, .unlock] = some (.createAfterFree, 3) :=
+      [.enter false, .lock, .create 0, .opened 0, .eof, .stop, .unlock] ∧
+    verdict {} [.enter false, .lock, .create 0, .opened 0, .eof, .stop, .unlock] = some (.createAfterFree, 2) ∧
+    verdict {} [.enter false, .lock, .opened 0, .create 0, .eof, .stop, .unlock] = some (.createAfterFree, 3) :=
   swap_hole_example
+
+/-! ## Why the loop reads again after the probe (`stopWithoutReread`)
+
+`stepEarly` is `step` except that the `check` micro-step that finds the lock free goes straight to `stopped`. -/
+
+/-- The early-stopping follower loses the last line although the entry was safe (the build's instance exists, phase
+`building`) and no instance is created: it sees the end of the file, the builder writes `1` and unlocks, the probe
+finds the lock free, and the follower returns without reading again.  The real loop, continued by four more
+follower steps on the same events, shows the line.  The observable trace of the early stop is flagged
+`stopWithoutReread`. -/
+theorem early_stop_loses_lines :
+    Ev.create ∉ earlyRun ∧
+    (runEarly (enter [[]] .building) earlyRun).map (fun s => (s.pc, s.emitted.reverse, current s)) =
+      some (.stopped, [], [1]) ∧
+    outcome (enter [[]] .building) (earlyRun ++ [.fol, .fol, .fol, .fol]) = some (.stopped, [1], [1]) ∧
+    verdict (obsStart [[]] .building) [.enter true, .opened 0, .eof, .unlock, .check false, .stop] =
+      some (.stopWithoutReread, 5) :=
+  early_stop_example
 
 /-- `verdict … = none` is "accepted". -/
 theorem verdict_none (o : OSt) (evs : List OEv) : verdict o evs = none ↔ ∃ o', orun o evs 0 = .ok o' :=
